@@ -321,3 +321,50 @@ pub fn ffi_line(rng: &mut Rng, maxvars: usize, maxops: usize) -> String {
     });
     format!("{} => {}", head, r.unwrap_or_else(|e| e))
 }
+
+/// `kind=wide` lines: model counts on managers with 54 to 64 variables (counts beyond 2^53),
+/// for diagrams whose count has a closed form: the disjunction / conjunction of the first k
+/// variables and a single variable
+pub fn ffi_wide_line(rng: &mut Rng) -> String {
+    let n = rng.range(54, 64) as usize;
+    let ks: Vec<usize> = vec![n, rng.range(1, n as u64) as usize, rng.range(40, n as u64) as usize];
+    let head = format!("ffi kind=wide n={} ks={}", n, csv(&ks));
+    let r = guarded(|| unsafe {
+        rsdd::verif_hooks::set_table_capacity(None);
+        let nb = RobddBuilder::<AllIteTable<BddPtr>>::new(mk_order(&(0..n).collect::<Vec<_>>()));
+        fn count_n<'a>(nb: &'a RobddBuilder<'a, AllIteTable<BddPtr<'a>>>, p: BddPtr<'a>, n: usize) -> u128 {
+            let sm = nb.smooth(p, n);
+            let params: WmcParams<FiniteField<{ primes::U64_LARGEST }>> = WmcParams::new(HashMap::from_iter(
+                (0..n as u64).map(|v| (VarLabel::new(v), (FiniteField::one(), FiniteField::one()))),
+            ));
+            sm.unsmoothed_wmc(&params).value()
+        }
+        let b = mk_bdd_manager_default_order(n as u64);
+        let mut c = Vec::new();
+        let mut nn = Vec::new();
+        for &k in ks.iter() {
+            // disjunction and conjunction of x0..x(k-1), built from the last variable upwards
+            let mut cor = bdd_false(b);
+            let mut cand = bdd_true(b);
+            let mut nor = nb.false_ptr();
+            let mut nand = nb.true_ptr();
+            for v in (0..k).rev() {
+                let cv = bdd_var(b, v as u64, true);
+                cor = bdd_or(b, cv, cor);
+                cand = bdd_and(b, cv, cand);
+                let nv = nb.var(VarLabel::new_usize(v), true);
+                nor = nb.or(nv, nor);
+                nand = nb.and(nv, nand);
+            }
+            c.push(robdd_model_count(b, cor));
+            c.push(robdd_model_count(b, cand));
+            c.push(robdd_model_count(b, bdd_var(b, (k - 1) as u64, false)));
+            nn.push(count_n(&nb, nor, n));
+            nn.push(count_n(&nb, nand, n));
+            nn.push(count_n(&nb, nb.var(VarLabel::new_usize(k - 1), false), n));
+        }
+        free_bdd_manager(b);
+        format!("cmc={} nmc={}", csv(&c), csv(&nn))
+    });
+    format!("{} => {}", head, r.unwrap_or_else(|e| e))
+}
